@@ -226,6 +226,56 @@ let run_rt () =
            | Ok w2 -> Printf.sprintf "OK p1=%s w1=%s p2=%s w2=%s" (dump_patch p) (hexb w1) (dump_patch p2) (hexb w2)
            | Panic -> "PANIC" | Diverge -> "DIVERGE")))
 
+(* ---------- l3: the push command on an abstract file system ----------
+   push <fuzz> <backup A|O|N> <count -1|n> <dry 0/1> <default mode> <goal: A | C n | U hexname>
+        <nfiles> {hexpath hexdata mode}* <ndirs> {hexpath}* <npatches> {hexname hexdata}*        *)
+let rerr_name = function
+  | ESeries -> "series" | EPatchLoad -> "patchload" | ELoadFile -> "loadfile" | ESave -> "save"
+  | EMismatch -> "mismatch" | EGoal -> "goal" | EOutOfModel -> "outofmodel"
+
+let show_fs (fs : fsys) =
+  let comp c = hexb c in
+  let path p = if p = [] then "-" else String.concat "/" (List.map comp p) in
+  let files = List.map (fun (p, f) -> (path p, Printf.sprintf "F %s %d %s" (path p) (int_of_n f.f_mode) (hexb f.f_data))) fs.fs_files in
+  let dirs = List.map (fun p -> (path p, Printf.sprintf "D %s" (path p))) fs.fs_dirs in
+  let all = List.sort_uniq compare (files @ dirs) in
+  String.concat " | " (List.map snd all)
+
+let run_push () =
+  let fuzz = int () in
+  let backup = (match word () with "A" -> Always | "O" -> OnFail | _ -> Never) in
+  let count = (let c = int () in if c < 0 then BAll else BLast (nat_of_int c)) in
+  let dry = int () <> 0 in
+  let dm = int () in
+  let goal = (match word () with
+              | "A" -> GAll
+              | "C" -> GCount (nat_of_int (int ()))
+              | _ -> GUpTo (bytes_of_ints (hexbytes ()))) in
+  let nfiles = int () in
+  let files = times nfiles (fun () ->
+    let p = bytes_of_ints (hexbytes ()) in let d = bytes_of_ints (hexbytes ()) in let m = int () in
+    (normalize p, { f_data = d; f_mode = n_of_int m })) in
+  let ndirs = int () in
+  let dirs = times ndirs (fun () -> normalize (bytes_of_ints (hexbytes ()))) in
+  let np = int () in
+  let db = times np (fun () -> let n = bytes_of_ints (hexbytes ()) in let d = bytes_of_ints (hexbytes ()) in (n, d)) in
+  let cfg = { c_fuzz = nat_of_int fuzz; c_backup = backup; c_backup_count = count; c_dry_run = dry;
+              c_default_mode = n_of_int dm } in
+  let fs = { fs_files = files; fs_dirs = dirs; fs_log = [] } in
+  let (fs', r) = cmd_push cfg db goal fs in
+  let ops = String.concat "," (List.map (fun op ->
+      let path p = if p = [] then "-" else String.concat "/" (List.map hexb p) in
+      match op with
+      | OpUnlink p -> "U:" ^ path p
+      | OpCreate (p, ex) -> (if ex then "T:" else "C:") ^ path p
+      | OpMkdir p -> "M:" ^ path p
+      | OpRmdir p -> "R:" ^ path p) fs'.fs_log) in
+  let trace = " || OPS " ^ ops in
+  match r with
+  | ROk ok -> Printf.sprintf "EXIT %d | %s%s" (if ok then 0 else 1) (show_fs fs') trace
+  | RErr e -> Printf.sprintf "EXIT 1 ERR %s | %s%s" (rerr_name e) (show_fs fs') trace
+  | RPanic -> "PANIC | " ^ show_fs fs' ^ trace
+
 (* ---------- main loop ---------- *)
 let run_case line =
   toks := List.filter (fun s -> s <> "") (String.split_on_char ' ' line);
@@ -237,6 +287,7 @@ let run_case line =
   | "c03" -> run_c03 ()
   | "parse" -> run_parse ()
   | "rt" -> run_rt ()
+  | "push" -> run_push ()
   | k -> "UNKNOWN " ^ k
 
 let () =
